@@ -258,6 +258,30 @@ int main(int argc, char** argv) {
         CHECK(singles == 1);
         c.barrier();
     }, nullptr});
+    S.push_back({"omp sections and tasks", 2, "ok", [](int rank, std::vector<std::string>& msgs) {
+        mpi::communicator c; int a = 0, b = 0, d = 0; std::vector<int> t(10, 0);
+        #pragma omp parallel sections
+        {
+            #pragma omp section
+            { a = 1; }
+            #pragma omp section
+            { b = 2; }
+            #pragma omp section
+            { d = 3; }
+        }
+        CHECK(a == 1 && b == 2 && d == 3);
+        #pragma omp parallel
+        {
+            #pragma omp single
+            { for (int i = 0; i < 10; i++) {
+                #pragma omp task firstprivate(i)
+                { t[i] = i * i; } }
+              #pragma omp taskwait
+            }
+        }
+        for (int i = 0; i < 10; i++) CHECK(t[i] == i * i);
+        c.barrier();
+    }, nullptr});
     S.push_back({"work() varies completion order", 4, "ok", [](int rank, std::vector<std::string>& msgs) {
         mpi::communicator c; shim::work(10); int v = rank; if (rank) c.send(0, 0, v); else for (int i = 1; i < 4; i++) { c.recv(mpi::any_source, 0, v); shim::note(v); }
     }, nullptr});
